@@ -5,6 +5,7 @@ Line-protocol driver for the NFT model and the C14 monitor.
 Op lines: ids and accounts are plain tokens (`-` = empty), free-form strings are hex (`-` = empty).
 -/
 import Irismod.Spec.C14
+import Irismod.Model.NftGenesis
 
 namespace Driver.Nft
 open Irismod Irismod.Nft Irismod.Line Irismod.Spec.C14
@@ -107,6 +108,16 @@ def parseObs (t : List String) : Option Obs := do
     | _ => none
   return { st := s, bals := bals }
 
+/-- the exported genesis document in ITS OWN order (no sorting here: the order is part of what is compared) -/
+def showGenesis (g : NftGenesis.Genesis) : String :=
+  let cols := g.map fun c =>
+    let ts := c.nfts.map fun n =>
+      ";".intercalate [n.id, undash n.owner, undash n.tok.name, undash n.tok.uri, undash n.tok.uriHash, undash n.tok.data]
+    ";".intercalate [c.id, undash c.cls.creator, b01 c.cls.mintRestricted, b01 c.cls.updateRestricted,
+      undash c.cls.name, undash c.cls.symbol, undash c.cls.schema, undash c.cls.description, undash c.cls.uri,
+      undash c.cls.uriHash, undash c.cls.data] ++ "[" ++ joinWith "+" ts ++ "]"
+  s!"cols={joinWith "," cols}"
+
 def resWord : Except Err State → String
   | .ok _ => "ok"
   | .error (.reject _) => "rej"
@@ -116,6 +127,14 @@ def modelLine (s : State) (line : String) : State × String :=
   let t := tokens line
   match t with
   | ["nft", "reset"] => ({}, "ok " ++ showState {})
+  | ["nft", "export"] =>
+    let g := NftGenesis.exportGenesis s
+    (s, s!"ok validate={if NftGenesis.validateGenesis g then "ok" else "err"} {showGenesis g}")
+  | ["nft", "reimport"] =>
+    -- InitGenesis(ExportGenesis(state)) on an emptied module store
+    match NftGenesis.importGenesis (NftGenesis.exportGenesis s) with
+    | .ok s' => (s', "ok " ++ showState s')
+    | .error _ => (s, "panic " ++ showState s)
   | ["nft", "vjson", d] =>
     -- pure conformance case: ValidateBasic of an otherwise well-formed mint carrying this data
     match hexArg [d] "data" with
@@ -138,10 +157,10 @@ def runModel (ops : Array String) : IO Unit := do
     out.putStrLn o
 
 /-- monitor: the pre-state is the previous *implementation* observation -/
-def runMonitor (ops obs : Array String) : IO Unit := do
+def runMonitor (prop : String) (ops obs : Array String) : IO Unit := do
   let out ← IO.getStdout
   if ops.size ≠ obs.size then
-    out.putStrLn s!"mon C14 FAIL clause=stream-length ops={ops.size} obs={obs.size}"
+    out.putStrLn s!"mon {prop} FAIL clause=stream-length ops={ops.size} obs={obs.size}"
     return
   let mut pre : Obs := {}
   let mut fails := 0
@@ -153,31 +172,49 @@ def runMonitor (ops obs : Array String) : IO Unit := do
     | ["nft", "reset"] =>
       match parseObs o with
       | some s => pre := s
-      | none => out.putStrLn s!"mon C14 FAIL clause=obs-parse line={i+1}"; fails := fails + 1
+      | none => out.putStrLn s!"mon {prop} FAIL clause=obs-parse line={i+1}"; fails := fails + 1
+    | ["nft", "export"] =>
+      -- the exported document must pass the module's own ValidateGenesis (C12)
+      if !(o.contains "validate=ok") then
+        out.putStrLn s!"mon {prop} FAIL clause=export-invalid line={i+1}"; fails := fails + 1
+    | ["nft", "reimport"] =>
+      -- InitGenesis of the export must not panic and must preserve every owner, supply, balance,
+      -- class record (creator, restriction flags, metadata) and token record (C12 for nft)
+      match parseObs o with
+      | some post =>
+        if o.head? != some "ok" then
+          out.putStrLn s!"mon {prop} FAIL clause=reimport-panic line={i+1}"; fails := fails + 1
+        if !(sameObs pre post) then
+          out.putStrLn s!"mon {prop} FAIL clause=reimport-changed-state line={i+1}"; fails := fails + 1
+        match invFail post with
+        | some c => out.putStrLn s!"mon {prop} FAIL clause={c} line={i+1}"; fails := fails + 1
+        | none => pure ()
+        pre := post
+      | none => out.putStrLn s!"mon {prop} FAIL clause=obs-parse line={i+1}"; fails := fails + 1
     | ["nft", "vjson", _] =>
       -- a pure ValidateBasic case: no message is delivered, the state must not move
       match parseObs o with
       | some post =>
         if !(sameObs pre post) then
-          out.putStrLn s!"mon C14 FAIL clause=rejected-but-changed line={i+1}"; fails := fails + 1
+          out.putStrLn s!"mon {prop} FAIL clause=rejected-but-changed line={i+1}"; fails := fails + 1
         pre := post
-      | none => out.putStrLn s!"mon C14 FAIL clause=obs-parse line={i+1}"; fails := fails + 1
+      | none => out.putStrLn s!"mon {prop} FAIL clause=obs-parse line={i+1}"; fails := fails + 1
     | _ =>
       match parseOp t, parseObs o with
       | some op, some post =>
         steps := steps + 1
         let accepted := o.head? == some "ok"
         if o.head? == some "panic" then
-          out.putStrLn s!"mon C14 FAIL clause=panic line={i+1}"; fails := fails + 1
+          out.putStrLn s!"mon {prop} FAIL clause=panic line={i+1}"; fails := fails + 1
         match stepFail pre op accepted post with
-        | some c => out.putStrLn s!"mon C14 FAIL clause={c} line={i+1}"; fails := fails + 1
+        | some c => out.putStrLn s!"mon {prop} FAIL clause={c} line={i+1}"; fails := fails + 1
         | none => pure ()
         match invFail post with
-        | some c => out.putStrLn s!"mon C14 FAIL clause={c} line={i+1}"; fails := fails + 1
+        | some c => out.putStrLn s!"mon {prop} FAIL clause={c} line={i+1}"; fails := fails + 1
         | none => pure ()
         pre := post
-      | _, _ => out.putStrLn s!"mon C14 FAIL clause=parse line={i+1}"; fails := fails + 1
-  out.putStrLn s!"mon C14 done steps={steps} fails={fails}"
+      | _, _ => out.putStrLn s!"mon {prop} FAIL clause=parse line={i+1}"; fails := fails + 1
+  out.putStrLn s!"mon {prop} done steps={steps} fails={fails}"
 
 /-- diagnostic: op kind + the model's verdict with its reason, one per line -/
 def runExplain (ops : Array String) : IO Unit := do
@@ -188,6 +225,11 @@ def runExplain (ops : Array String) : IO Unit := do
     match t with
     | ["nft", "reset"] => s := {}
     | ["nft", "vjson", _] => pure ()
+    | ["nft", "export"] => pure ()
+    | ["nft", "reimport"] =>
+      match NftGenesis.importGenesis (NftGenesis.exportGenesis s) with
+      | .ok s' => s := s'; out.putStrLn "reimport ok"
+      | .error _ => out.putStrLn "reimport panic"
     | _ =>
       match parseOp t with
       | none => out.putStrLn "bad-op"
@@ -205,8 +247,9 @@ def main (args : List String) : IO UInt32 := do
   match args with
   | ["model", ops] => runModel (← readLines ops); return 0
   | ["explain", ops] => runExplain (← readLines ops); return 0
-  | ["monitor", "C14", ops, obs] => runMonitor (← readLines ops) (← readLines obs); return 0
-  | _ => IO.eprintln "usage: model <ops> | monitor C14 <ops> <obs>"; return 2
+  | ["monitor", "C14", ops, obs] => runMonitor "C14" (← readLines ops) (← readLines obs); return 0
+  | ["monitor", "C12", ops, obs] => runMonitor "C12" (← readLines ops) (← readLines obs); return 0
+  | _ => IO.eprintln "usage: model <ops> | monitor C14|C12 <ops> <obs> | explain <ops>"; return 2
 
 end Driver.Nft
 
